@@ -16,14 +16,14 @@ Open Scope Z_scope.
     positions >= n after a stop sequence shortened the record: LoadCacheSlot erases from numPast <= n on reuse). *)
 Theorem C07_slot_matches_cache :
   forall (F : list (Z * tok) -> tok) cfg parallel ops,
-    1 <= numCtx cfg ->
+    1 <= numCtx cfg -> window cfg = None ->
     let st := run F cfg (init parallel) ops in
     forall i, (i < length (slots st))%nat ->
       let s := nth_slot (slots st) i in
       filter (fun e => fst e <? zlen (s_inputs s)) (view (kv st) i) = enumerate 0 (s_inputs s) /\
       (s_inuse s = true -> view (kv st) i = enumerate 0 (s_inputs s)).
 Proof.
-  intros F cfg parallel ops Hc st i Hi. destruct (reachable_inv F cfg parallel ops Hc) as [Hm _].
+  intros F cfg parallel ops Hc Hw st i Hi. destruct (reachable_inv F cfg parallel ops Hc Hw) as [Hm _].
   exact (inv_slots_ok _ _ _ _ _ Hm i Hi).
 Qed.
 Print Assumptions C07_slot_matches_cache.
@@ -40,7 +40,7 @@ Print Assumptions C07_no_double_use.
     use, and a request accepted next gets a slot that no live sequence holds. *)
 Theorem C07_no_double_use_reachable :
   forall (F : list (Z * tok) -> tok) cfg parallel ops,
-    1 <= numCtx cfg ->
+    1 <= numCtx cfg -> window cfg = None ->
     let st := run F cfg (init parallel) ops in
     (forall i1 i2 q1 q2, nth i1 (seqs st) None = Some q1 -> nth i2 (seqs st) None = Some q2 -> q_slot q1 = q_slot q2 -> i1 = i2) /\
     (forall i q, nth i (seqs st) None = Some q -> s_inuse (nth_slot (slots st) (q_slot q)) = true) /\
@@ -49,7 +49,7 @@ Theorem C07_no_double_use_reachable :
         exists q, nth idx (seqs (fst (submit cfg st prompt np keep stops))) None = Some q /\
                   forall j q2, nth j (seqs st) None = Some q2 -> q_slot q2 <> q_slot q).
 Proof.
-  intros F cfg parallel ops Hc st. pose proof (reachable_inv F cfg parallel ops Hc) as Hinv. fold st in Hinv.
+  intros F cfg parallel ops Hc Hw st. pose proof (reachable_inv F cfg parallel ops Hc Hw) as Hinv. fold st in Hinv.
   destruct Hinv as [Hm Hin]. split; [|split].
   - exact (mo_inj _ _ _ _ _ Hm).
   - intros i q E. exact (lo_inuse _ _ _ _ _ (mo_live _ _ _ _ _ Hm i q E)).
@@ -67,13 +67,13 @@ Print Assumptions C07_no_double_use_reachable.
     position right - and the token is the network's answer to it. *)
 Theorem C07_model_sees_effective_input :
   forall (F : list (Z * tok) -> tok) cfg parallel ops,
-    1 <= numCtx cfg ->
+    1 <= numCtx cfg -> window cfg = None ->
     let st := run F cfg (init parallel) ops in
     forall r W0 keep np stops, In (EvSubmit r W0 keep np stops) (log st) ->
       forall j t vis, nth_error (samples_of r (log st)) j = Some (t, vis) ->
         vis = enumerate 0 (ref_win F cfg keep W0 j) /\ t = F vis.
 Proof.
-  intros F cfg parallel ops Hc st. destruct (reachable_inv2 F cfg parallel ops Hc) as (_ & Hlok & _). exact Hlok.
+  intros F cfg parallel ops Hc Hw st. destruct (reachable_inv2 F cfg Hw parallel ops Hc) as (_ & Hlok & _). exact Hlok.
 Qed.
 Print Assumptions C07_model_sees_effective_input.
 
@@ -89,7 +89,7 @@ Print Assumptions C07_submit_records_request.
     ANY two histories - in particular one of them alone on a fresh server with an empty cache, with any number of
     slots - are given the same tokens, position by position, from the same visible histories. *)
 Theorem C07_same_as_fresh :
-  forall (F : list (Z * tok) -> tok) cfg, 1 <= numCtx cfg ->
+  forall (F : list (Z * tok) -> tok) cfg, 1 <= numCtx cfg -> window cfg = None ->
     forall parallel ops parallel' ops' r r' W0 keep np stops np' stops',
       let st := run F cfg (init parallel) ops in
       let st' := run F cfg (init parallel') ops' in
@@ -99,9 +99,9 @@ Theorem C07_same_as_fresh :
         nth_error (samples_of r' (log st')) j = Some (t', vis') ->
         t = t' /\ vis = vis'.
 Proof.
-  intros F cfg Hc parallel ops parallel' ops' r r' W0 keep np stops np' stops' st st' H1 H2 j t vis t' vis' E1 E2.
-  destruct (C07_model_sees_effective_input F cfg parallel ops Hc r W0 keep np stops H1 j t vis E1) as [A1 A2].
-  destruct (C07_model_sees_effective_input F cfg parallel' ops' Hc r' W0 keep np' stops' H2 j t' vis' E2) as [B1 B2].
+  intros F cfg Hc Hw parallel ops parallel' ops' r r' W0 keep np stops np' stops' st st' H1 H2 j t vis t' vis' E1 E2.
+  destruct (C07_model_sees_effective_input F cfg parallel ops Hc Hw r W0 keep np stops H1 j t vis E1) as [A1 A2].
+  destruct (C07_model_sees_effective_input F cfg parallel' ops' Hc Hw r' W0 keep np' stops' H2 j t' vis' E2) as [B1 B2].
   subst. auto.
 Qed.
 Print Assumptions C07_same_as_fresh.
@@ -111,7 +111,7 @@ Print Assumptions C07_same_as_fresh.
     e.g. alone on a fresh runner - never gets more than n tokens, and if it has finished there too it got exactly n
     and finished for the same reason.  ([nsamples r l] = number of tokens sampled for request r in log l.) *)
 Theorem C07_same_length_as_fresh :
-  forall (F : list (Z * tok) -> tok) cfg, 1 <= numCtx cfg ->
+  forall (F : list (Z * tok) -> tok) cfg, 1 <= numCtx cfg -> window cfg = None ->
     forall parallel ops parallel' ops' r r' W0 keep np stops rs,
       let st := run F cfg (init parallel) ops in
       let st' := run F cfg (init parallel') ops' in
@@ -120,9 +120,9 @@ Theorem C07_same_length_as_fresh :
       (nsamples r' (log st') <= nsamples r (log st))%nat /\
       (forall rs', In (EvDone r' rs') (log st') -> nsamples r' (log st') = nsamples r (log st) /\ rs' = rs).
 Proof.
-  intros F cfg Hc parallel ops parallel' ops' r r' W0 keep np stops rs st st' H1 H2 Hd.
-  destruct (reachable_inv2 F cfg parallel ops Hc) as (_ & _ & I1 & _).
-  destruct (reachable_inv2 F cfg parallel' ops' Hc) as (_ & _ & I2 & _).
+  intros F cfg Hc Hw parallel ops parallel' ops' r r' W0 keep np stops rs st st' H1 H2 Hd.
+  destruct (reachable_inv2 F cfg Hw parallel ops Hc) as (_ & _ & I1 & _).
+  destruct (reachable_inv2 F cfg Hw parallel' ops' Hc) as (_ & _ & I2 & _).
   eapply (same_end F cfg st st'); eauto; apply reachable_inv3; auto.
 Qed.
 Print Assumptions C07_same_length_as_fresh.
@@ -130,7 +130,7 @@ Print Assumptions C07_same_length_as_fresh.
 (** non-vacuity: the history that exposes the pinned defect (fork a prefix into the second slot, overflow the fork so
     that the shift fails on shared cells and the inputs are reprocessed), with the harness's network: request 1 is
     accepted, six tokens are sampled for it, and alone on a fresh one-slot server it is given the same six. *)
-Definition ex_cfg : config := mkCfg 8 8 true true true true (-1).
+Definition ex_cfg : config := mkCfg 8 8 true true true true (-1) None.
 Definition ex_ops : list op :=
   [Submit [1;2;3;4;5;0] 1 0 []; Step; Step; Submit [1;2;3;4;5;1] 6 0 []] ++ repeat Step 9.
 Definition ex_fresh : list op := Submit [1;2;3;4;5;1] 6 0 [] :: repeat Step 9.
@@ -172,12 +172,12 @@ Proof. vm_compute. repeat split; auto. Qed.
     is what fixes/C07-stop-trim-negative.patch repairs; a panic in processBatch kills every in-flight request). *)
 Theorem C07_no_runner_failure :
   forall (F : list (Z * tok) -> tok) cfg parallel ops o,
-    1 <= numCtx cfg ->
+    1 <= numCtx cfg -> window cfg = None ->
     match snd (step_op F cfg (run F cfg (init parallel) ops) o) with
     | RPanic | RFatal | RLoadErr => False
     | _ => True
     end.
-Proof. intros F cfg parallel ops o Hc. apply step_op_no_failure; auto. apply reachable_inv; auto. Qed.
+Proof. intros F cfg parallel ops o Hc Hw. apply step_op_no_failure; auto. apply reachable_inv; auto. Qed.
 Print Assumptions C07_no_runner_failure.
 
 (** a full context always frees at least one entry, and never more than what is not kept *)
